@@ -198,3 +198,216 @@ plan("C10", "fault_enumeration",
      "LMDB abort semantics trusted; faults injected at the callback / resource boundary",
      "runtime monitoring under enumerated injected faults (cancel point, map size, temp dir, write limit) with dump-equality and leak probes",
      "DESIGN.md §3 C10")
+
+
+# ------------------------------------------------------------------------------------------------
+# C09: crash-point enumeration, orchestrated from Python (child process + verifier process)
+
+def _crash_runner(leg, prop, tier, seed, jobs, ROOT, BUILD, replay_case):
+    import json, os, random, re, shutil, signal, subprocess, tempfile, time
+    from concurrent.futures import ThreadPoolExecutor
+    from legres import LegResult
+    res = LegResult(leg["name"])
+    binp = os.path.join(BUILD, "native", "release", "arroy-verif")
+    scratch = os.environ.get("VERIF_CRASH_SCRATCH", tempfile.gettempdir())
+    versions = 4
+    thorough = tier == "thorough"
+    rng = random.Random(seed * 7919 + 13)
+    STRACE_SET = "lseek,writev,pwritev,pwrite64,fdatasync,fsync"
+
+    def run_child(cs, kill, mode="plain", strace_k=None, timer_v=None, timer_delay=0.0):
+        d = tempfile.mkdtemp(prefix="arroy-verif-crash-", dir=scratch)
+        cmd = [binp, "crash-child", "C09", "--dir", d, "--seed", str(cs), "--versions", str(versions), "--kill", kill]
+        if mode == "strace":
+            sc, k = strace_k
+            cmd = ["strace", "-f", "-qq", "-o", "/dev/null", "-e", "trace=" + STRACE_SET,
+                   "-e", f"inject={sc}:signal=KILL:when={k}", "--"] + cmd
+        out_lines = []
+        p = subprocess.Popen(cmd, stdout=subprocess.PIPE, stderr=subprocess.PIPE, text=True, bufsize=1)
+        killed_by_timer = False
+        try:
+            if mode == "timer":
+                for ln in p.stdout:
+                    out_lines.append(ln.rstrip("\n"))
+                    if ln.startswith(f"COMMITTING {timer_v}"):
+                        time.sleep(timer_delay)
+                        try:
+                            p.send_signal(signal.SIGKILL)
+                            killed_by_timer = True
+                        except ProcessLookupError:
+                            pass
+                        break
+                # keep reading through the same buffered wrapper (communicate() would bypass its buffer)
+                rest = p.stdout.read()
+                err = p.stderr.read()
+                p.wait(timeout=120)
+                out_lines += [l for l in rest.splitlines()]
+            else:
+                out, err = p.communicate(timeout=120)
+                out_lines = out.splitlines()
+        except subprocess.TimeoutExpired:
+            p.kill()
+            p.communicate()
+            return d, out_lines, None, "timeout"
+        return d, out_lines, p.returncode, err
+
+    def analyse(out_lines):
+        acked, inflight, counts, done = -1, None, {}, False
+        for ln in out_lines:
+            m = re.match(r"ACK (\d+)", ln)
+            if m:
+                acked = int(m.group(1)); inflight = None
+            m = re.match(r"COMMITTING (\d+)", ln)
+            if m:
+                inflight = int(m.group(1))
+            m = re.match(r"COUNT (\d+) polls=(\d+) steps=(\d+) ops=(\d+)", ln)
+            if m:
+                counts[int(m.group(1))] = tuple(int(x) for x in m.groups()[1:])
+            if ln == "DONE":
+                done = True
+        return acked, inflight, counts, done
+
+    def verify(cs, d, acked, inflight):
+        cmd = [binp, "crash-verify", "C09", "--dir", d, "--seed", str(cs), "--acked", str(acked) if acked >= 0 else "none"]
+        if inflight is not None:
+            cmd += ["--inflight", str(inflight)]
+        try:
+            r = subprocess.run(cmd, stdout=subprocess.PIPE, stderr=subprocess.PIPE, text=True, timeout=120)
+        except subprocess.TimeoutExpired:
+            return "inconclusive", "verifier timed out"
+        for ln in r.stdout.splitlines():
+            if ln.startswith("VERIFY ok"):
+                return "ok", ln
+            if ln.startswith("VERIFY violation"):
+                return "violation", ln[len("VERIFY violation "):]
+        return "inconclusive", f"verifier produced no verdict (exit {r.returncode}): {r.stderr[-400:]}"
+
+    # scenarios and their counting runs
+    n_scen = 2 if not thorough else 3
+    scen = []
+    for i in range(n_scen):
+        cs = (seed * 1000003 + i * 7919 + 0xC09) & 0xFFFFFFFF
+        d, out, rc, err = run_child(cs, "none")
+        acked, inflight, counts, done = analyse(out)
+        shutil.rmtree(d, ignore_errors=True)
+        if not done or rc != 0:
+            res.inconclusive.append(f"counting run of scenario {cs} did not complete (rc={rc}): {str(err)[-300:]}")
+            return res
+        scen.append((cs, counts))
+    # strace availability + number of matching syscalls
+    strace_ok = shutil.which("strace") is not None
+    specs = []   # (cs, label, kwargs)
+    for cs, counts in scen:
+        for v in range(1, versions + 1):
+            polls, steps, ops = counts[v]
+            if thorough and v <= 2:
+                ks = list(range(polls))
+            else:
+                n = 50 if not thorough else 200
+                ks = sorted(set([0, 1, polls - 1] + [rng.randrange(polls) for _ in range(n)]))
+            for k in ks:
+                specs.append((cs, f"poll:{v}:{k}", dict(kill=f"poll:{v}:{k}")))
+            for k in range(steps):
+                specs.append((cs, f"step:{v}:{k}", dict(kill=f"step:{v}:{k}")))
+            oks = range(ops) if thorough else sorted(set([0, ops - 1] + [rng.randrange(ops) for _ in range(5)]))
+            for k in oks:
+                specs.append((cs, f"op:{v}:{k}", dict(kill=f"op:{v}:{k}")))
+            specs.append((cs, f"after:{v}:0", dict(kill=f"after:{v}:0")))
+            nt = 12 if not thorough else 125
+            for j in range(nt):
+                specs.append((cs, f"timer:{v}:{j}", dict(kill="none", mode="timer", timer_v=v, timer_delay=rng.random() * 0.004)))
+        if strace_ok:
+            # strace keeps one invocation counter per syscall: enumerate (syscall, K)
+            for sc in STRACE_SET.split(","):
+                for k in range(1, 15 if thorough else 10):
+                    specs.append((cs, f"strace:{sc}:{k}", dict(kill="none", mode="strace", strace_k=(sc, k))))
+    if replay_case is not None:
+        specs = [s for s in specs if f"{s[0]}/{s[1]}" == replay_case]
+
+    def one(spec):
+        cs, label, kw = spec
+        d, out, rc, err = run_child(cs, **kw)
+        try:
+            acked, inflight, counts, done = analyse(out)
+            if rc is None:
+                return spec, "inconclusive", "child timed out", None
+            if kw.get("mode") == "strace" and rc not in (0, -9, 137) and not done:
+                return spec, "strace-failed", f"rc={rc} {str(err)[-200:]}", None
+            if done:
+                inflight = None
+            verdict, msg = verify(cs, d, acked, inflight)
+            return spec, verdict, msg, (acked, inflight, done, rc)
+        finally:
+            shutil.rmtree(d, ignore_errors=True)
+
+    t0 = time.time()
+    with ThreadPoolExecutor(max_workers=max(2, jobs)) as ex:
+        results = list(ex.map(one, specs))
+    c = res.counters
+    strace_failed = 0
+    for (cs, label, kw), verdict, msg, info in results:
+        res.cases_begun += 1
+        res.cases_ended += 1
+        mode = label.split(":")[0]
+        c["cases"] = c.get("cases", 0) + 1
+        c[f"kills_{mode}"] = c.get(f"kills_{mode}", 0) + 1
+        if verdict == "strace-failed":
+            strace_failed += 1
+            continue
+        if verdict == "inconclusive":
+            res.inconclusive.append(f"{cs}/{label}: {msg}")
+            continue
+        acked, inflight, done, rc = info
+        if done:
+            c["kill_point_not_reached"] = c.get("kill_point_not_reached", 0) + 1
+        else:
+            c["child_killed"] = c.get("child_killed", 0) + 1
+            c[f"killed_by_{mode}"] = c.get(f"killed_by_{mode}", 0) + 1
+        if inflight is not None:
+            c["killed_with_commit_in_flight"] = c.get("killed_with_commit_in_flight", 0) + 1
+        if verdict == "ok":
+            c["verified_ok"] = c.get("verified_ok", 0) + 1
+            m = re.search(r"v=(\d+) .*which=(\w+)", msg)
+            if m:
+                c[f"visible_{m.group(2)}"] = c.get(f"visible_{m.group(2)}", 0) + 1
+                res.sigs.add(f"{mode}|v{m.group(1)}|{m.group(2)}|{'done' if done else 'killed'}")
+            if len(res.samples) < 3 and not done:
+                res.samples.append({"scenario_seed": cs, "kill": label, "last_ack": acked, "commit_in_flight": inflight, "verifier": msg})
+        else:
+            res.viols.append({"property": prop, "case_seed": f"{cs}/{label}", "key": f"crash:{mode}", "step": -1,
+                              "msg": f"kill point {label} (last ACK {acked}, commit in flight {inflight}): {msg}"})
+    if strace_failed:
+        c["strace_unavailable_runs"] = strace_failed
+    res.rule = ("fault enumeration over crash points: a child process runs a deterministic history of 5 committed versions (1 rayon thread) and is SIGKILLed "
+                "(a) at the k-th cancellation poll of a build (every k for two builds in the thorough tier, sampled otherwise), (b) at every progress step, "
+                "(c) before the k-th item operation, (d) right after a commit returned, (e) at a random instant between COMMITTING and ACK, "
+                "(f) by strace at the K-th invocation of each commit syscall (lseek, writev, pwritev, pwrite64, fdatasync, fsync; K=1..9, 14 thorough); a fresh process then reopens the directory and compares what is visible "
+                "with the model of the last acknowledged (or in-flight) version recomputed from the seed: sentinel, item store, C01 walker, exact queries, and one more update+build+commit; "
+                "non-trivial+distinct = distinct (kill mode, visible version, acked/in-flight, killed/completed) outcomes")
+    res.required = ["child_killed", "verified_ok", "killed_by_poll", "killed_by_step", "killed_by_op", "killed_by_timer", "killed_with_commit_in_flight"]
+    c["wall_s_x100"] = int((time.time() - t0) * 100)
+    return res
+
+
+RUNNERS["crash"] = _crash_runner
+
+plan("C09", "fault_enumeration",
+     [{"name": "native", "build": "native", "runner": "crash", "argv": [], "watchdog_s": {"quick": 1800, "thorough": 7200}}],
+     ["process death only (SIGKILL): the page cache survives, so torn pages / power loss are out of reach",
+      "LMDB's copy-on-write commit is trusted; the check is that arroy adds no side channel and no partial state"],
+     "crash leaves the last committed index",
+     "Crash-point enumeration: child process killed at enumerated cancellation polls, progress steps, item operations, inside the commit's syscalls (strace injection) and at random instants of a commit; a fresh verifier process reopens the directory and compares with the model of the acknowledged / in-flight version, then continues the history.",
+     "SIGKILL-level crashes; LMDB durability trusted",
+     "runtime monitoring under enumerated crash points (self-kill at callback counts, strace syscall injection, timer kills) with a reopen-and-compare verifier",
+     "DESIGN.md §3 C09")
+
+plan("C08", "exploration",
+     [worker("native", ["snap", "C08"], watchdog=(1200, 7200)),
+      worker("tsan", ["snap", "C08", "--cases", "16", "--versions", "25"], build="tsan", tiers=("thorough",), env=TSAN_ENV, sanitizer="tsan", watchdog=(3600, 3600))],
+     ["thread interleavings are sampled under oversubscription, random naps and hook noise, not enumerated",
+      "LMDB MVCC itself is trusted (C code not instrumented by TSan)"],
+     "writers atomic, readers keep a consistent snapshot",
+     "One writer thread (updates, sentinel, build in a rayon pool, commit or abort after successful/cancelled builds) against 2-6 reader threads that open, fully check and hold snapshots at random moments; version bounds c0 <= v <= c1 from atomics read around the open; whole-snapshot comparison with the model of v; aborted transactions must leave the raw dump unchanged. Thorough adds a TSan leg.",
+     "LMDB MVCC trusted",
+     "runtime monitoring: concurrent history recorder with version sentinel, whole-snapshot oracle and abort dump-equality; TSan",
+     "DESIGN.md §3 C08")
